@@ -58,6 +58,9 @@ C16_json(out) ==
        /\ (Len(rt) > 0 => Near(e.packet_loss_percentage, (e.packets_sent - e.packets_received) * 1000, e.packets_sent))
        /\ (e.packets_received > 0 => e.rtt.min <= e.rtt.avg + 1 /\ e.rtt.avg <= e.rtt.max + 1 /\ e.rtt.min > 0)
        /\ 0 <= e.jitter /\ e.jitter <= e.rtt.max - e.rtt.min + 1
+       \* ... the same relations in millionths of a millisecond (rounding slack: one unit)
+       /\ out.fine.jitter <= out.fine.max - out.fine.min + 1
+       /\ (e.packets_received > 0 => out.fine.min <= out.fine.avg + 1 /\ out.fine.avg <= out.fine.max + 1)
        \* identifiers: present, pairwise distinct
        /\ \A i, j \in DOMAIN out.ids : (i # j => out.ids[i] # out.ids[j]) /\ out.ids[i] # ""
        \* JSON: published field names, decodes back to the same values
